@@ -116,6 +116,9 @@ func (account Account) Validate() error {
 			return fmt.Errorf("base account id \"%s\" is not a valid bech32 address: %w", account.Id, err)
 		}
 	case ModuleAccount:
+		if account.Id == DistributorMainAccount {
+			return fmt.Errorf("module account \"%s\" is the distributor main account and must be referenced with the %s type", account.Id, Main)
+		}
 		if !accountExistInMacPerms(account.Id) {
 			return fmt.Errorf("module account \"%s\" doesn't exist in maccPerms", account.Id)
 		}
